@@ -29,11 +29,25 @@ def _sides(h, w, y, x):
 
 def gen_problem(rng, tier):
     h, w = rng.choice(_SHAPES)
-    mode = rng.random()
+    return _gen(rng, h, w)
+
+
+def extra_program_problems(rng):
+    """Larger boards for the program correspondence only (nothing is enumerated there): one non-square medium board and two
+    with more than 256 cells (a tall and a wide one); the numbers are read off a random loop
+    (`_loop.random_loop` on the lattice of cell corners), zeros and threes on the rim included."""
+    return [_gen(rng, h, w, _loop.random_loop(rng, h + 1, w + 1, rng.choice([0.3, 0.6]))) for h, w in _loop.big_shapes(rng)]
+
+
+def _gen(rng, h, w, a=None):
+    mode = rng.random() if a is None else 0.0
     if mode < 0.65:
-        loops = _loop.single_loops(h + 1, w + 1)
-        a = rng.choice(loops) if rng.random() < 0.9 else loops[0]
-        keep = rng.choice([0.0, 0.3, 0.6, 1.0])
+        if a is None:
+            loops = _loop.single_loops(h + 1, w + 1)
+            a = rng.choice(loops) if rng.random() < 0.9 else loops[0]
+            keep = rng.choice([0.0, 0.3, 0.6, 1.0])
+        else:
+            keep = rng.choice([0.3, 0.6])
         pb = [[sum(1 for i in _sides(h, w, y, x) if a[i]) if rng.random() < keep else -1 for x in range(w)] for y in range(h)]
         if rng.random() < 0.25:
             pb[rng.randrange(h)][rng.randrange(w)] = rng.choice([0, 1, 2, 3, 4])
